@@ -350,9 +350,15 @@ def simple_polygon_2d(rng):
 
 
 def is_convex_ccw(xy):
+    """Every corner turns left *and* the cycle winds exactly once (a pentagram also turns left at every corner)."""
+    xy = np.asarray(xy, float)
     e1 = xy - np.roll(xy, 1, axis=0)
     e2 = np.roll(xy, -1, axis=0) - xy
-    return bool(np.all(e1[:, 0] * e2[:, 1] - e1[:, 1] * e2[:, 0] > 0))
+    cr = e1[:, 0] * e2[:, 1] - e1[:, 1] * e2[:, 0]
+    if not np.all(cr > 0):
+        return False
+    turn = np.arctan2(cr, (e1 * e2).sum(1))
+    return bool(abs(turn.sum() - 2 * np.pi) < 1e-6)
 
 
 def polygon_case(rng, allow_tilt=True, kind=None, straight_frac=0.12):
